@@ -12,6 +12,7 @@ From RM Require C09.Model C09.Grammar C09.Driver C11.Text C11.Text2 C11.Text3 C1
 From RM Require Import C11.Proofs8 C11.Proofs9 C11.Proofs10.
 From RM Require Gen.C11Sym C11.Tie.
 From RM Require C11.Prims Gen.C11Src C11.SrcTie.
+From RM Require C12.Model C11.Session C11.Proofs11.
 Open Scope Z_scope.
 
 (* Parsing and symbolication never panic (overflow in `address + module.base_address()`,
@@ -874,4 +875,59 @@ Proof.
   eexists. split; [vm_compute; reflexivity|]. split.
   - intros r f Hin. cbn in Hin. repeat (destruct Hin as [E|Hin]; [inversion E; subst; cbn; lia|]). destruct Hin.
   - repeat split; vm_compute; reflexivity.
+Qed.
+
+(* ------------------------------------------------------------------------------------------------------------
+   Round 5, second pass: the Symbolizer level composed with C12's model of the symbol cache (C11/Session.v).
+   A session = one Symbolizer, a module list whose modules the supplier knows (SymOk st), does not know
+   (SymMissing -> Err(NotFound)) or has an unparseable file for (SymCorrupt -> Err(ParseError)), and a sequential
+   client issuing one lookup per frame (C12's configuration with one task, key = position in the module list). *)
+
+(* C12's theorems at the session.  The schedule [session_sched] finishes it; in ANY schedule that finishes, the client
+   holds one result per lookup, in order, each the supplier's single answer for that module (so a module without symbols
+   or with a corrupt file never yields a table, and a module with symbols always yields its own); pending_stats:
+   requested = processed = number of distinct modules looked up; every module looked up was fetched exactly once. *)
+Theorem c11_symbolizer_session : forall (mods : list Session.smodule) (keys : list nat),
+  let c := Session.session_cfg mods keys in
+  C12.Model.all_done c (Session.session_end mods keys) = true /\
+  forall sched, C12.Model.all_done c (C12.Model.run c sched) = true ->
+    map fst (C12.Model.results (C12.Model.sh (C12.Model.run c sched)) 0%nat) = keys /\
+    (forall i k o, C12.Model.task_result (C12.Model.run c sched) 0%nat i = Some (k, o) ->
+       nth_error keys i = Some k /\ o = C12.Model.outc c k) /\
+    C12.Model.requested (C12.Model.run c sched) = length (nodup Nat.eq_dec keys) /\
+    C12.Model.processed (C12.Model.run c sched) = length (nodup Nat.eq_dec keys) /\
+    (forall k, In k keys -> C12.Model.supplier_calls (C12.Model.run c sched) k = 1%nat).
+Proof. exact Proofs11.session_theorem. Qed.
+Print Assumptions c11_symbolizer_session.
+
+(* composition with C11's module-level model: in EVERY schedule (finished or not), if the cache has answered the lookup
+   of the module that C08's table finds for instruction q, then Symbolizer::fill_symbol with that answer (Ok: the
+   module's SymbolFile::fill_symbol at the module's own base; Err: frame untouched) followed by the reversal of the
+   inlines is [frame_of] — the function c11_module_lookup_compose / c11_module_isolated_found / c11_module_frame_total
+   speak about.  The result depends on the module's file alone, not on which lookup fetched it or on the interleaving. *)
+Theorem c11_symbolizer_cached_frame : forall p (mods : list Session.smodule) tbl keys q idx m sched i o,
+  rm_get tbl q = Some idx -> nth_error mods (Z.to_nat idx) = Some m ->
+  C12.Model.task_result (C12.Model.run (Session.session_cfg mods keys) sched) 0%nat i = Some (Z.to_nat idx, o) ->
+  frame_of p tbl (map Session.to_module mods) q = do r <- Session.fill_cached p m o q; Ret (Some (idx, r)).
+Proof. exact Proofs11.session_frame. Qed.
+Print Assumptions c11_symbolizer_cached_frame.
+
+(* three modules: symbols / unknown to the supplier / corrupt file; six frames, the first module looked up three times *)
+Example c11_nonvacuous_session :
+  exists st tbl,
+    build_symtab nv_file2 = Ret st /\
+    let mods : list Session.smodule :=
+      [(4096, 200, Session.SymOk st); (8192, 100, Session.SymMissing); (12288, 100, Session.SymCorrupt)] in
+    mod_table (map Session.to_module mods) = Ret tbl /\
+    Session.session_keys tbl [4117; 8200; 4141; 12290; 5000; 4191] = [0; 1; 0; 2; 0]%nat /\
+    Session.session_stats mods [0; 1; 0; 2; 0]%nat =
+      (3%nat, 3%nat, [Some (true, false); Some (false, false); Some (true, true)]) /\
+    C12.Model.results (C12.Model.sh (Session.session_end mods [0; 1; 0; 2; 0]%nat)) 0%nat =
+      [(0, C12.Model.OOk); (1, C12.Model.ONotFound); (0, C12.Model.OOk); (2, C12.Model.OParse); (0, C12.Model.OOk)]%nat /\
+    frame_of Debug tbl (map Session.to_module mods) 4117 =
+      Ret (Some (0, mk_out (Some (5, 4112, 12)) (Some (7, 70, 4112)) [(22, Some 7, Some 10); (21, Some 7, Some 71)])) /\
+    frame_of Debug tbl (map Session.to_module mods) 12290 = Ret (Some (2, empty_out)).
+Proof.
+  eexists. eexists. split; [vm_compute; reflexivity|]. cbv zeta. split; [vm_compute; reflexivity|].
+  repeat split; vm_compute; reflexivity.
 Qed.
